@@ -169,6 +169,13 @@ func NegotiatePack(
 			return nil, ErrShallowNotSupported
 		}
 		upreq.Depth = packp.DepthRequest{Deepen: req.Depth}
+	}
+
+	// A shallow repository always tells the server where its history ends,
+	// whether or not this fetch deepens it: a "have" otherwise promises the
+	// whole ancestry of the commit, and the server leaves out objects behind
+	// the boundary that the client does not hold.
+	if req.Depth > 0 || caps.Supports(capability.Shallow) {
 		upreq.Shallows, err = st.Shallow()
 		if err != nil {
 			return nil, err
